@@ -34,10 +34,14 @@ for p, n, t, r, h, cmd, hi in rows:
     out.append("| %s | `%s` | %s | %s | %s | %s |" % (p, n, t, r, h or "-", hi or "-"))
 det = sum(1 for r in rows if r[3] == "DETECTED")
 out += ["", "%d changes, %d detected by the quick tier of the property's check (or the tier named in meta.json `verif_check_cmd`)." % (len(rows), det), ""]
-missed = [r for r in rows if r[3] not in ("DETECTED", "OBSOLETE")]
+missed = [r for r in rows if r[3] not in ("DETECTED", "OBSOLETE", "NOT-CLAIMED")]
+notclaimed = [r for r in rows if r[3] == "NOT-CLAIMED"]
 obsolete = [r for r in rows if r[3] == "OBSOLETE"]
 if obsolete:
     out.append("Obsolete (the code they change was rewritten by a later repair; see their meta.json): " + ", ".join("`%s`" % r[1] for r in obsolete) + ".")
+    out.append("")
+if notclaimed:
+    out.append("Against a property that is not claimed (C17, not_applicable in MANIFEST.json), so no check exists that could report it: " + ", ".join("`%s`" % r[1] for r in notclaimed) + ".")
     out.append("")
 if missed:
     out.append("Not detected: " + ", ".join("`%s` (%s)" % (r[1], r[0]) for r in missed) + " - see DESIGN.md section 8 for why.")
